@@ -1,29 +1,46 @@
 """C08 — PShmBuffer = bounded FIFO byte queue (model PV.Model.ShmBuffer, theorems PV.Props.C08)."""
 import itertools
+import os
 import pv
 import diffrun
+
+PAGE = os.sysconf("SC_PAGE_SIZE")
+HDR = 17            # two psize header words + the unused slot: segment size = capacity + 17
+# lengths no capacity can hold: around the 32-bit, int and 33-bit borders (caller memory is reserved, never touched)
+HUGE = [2 ** 31 - 1, 2 ** 31, 2 ** 31 + 1, 2 ** 32 - 1, 2 ** 32, 2 ** 32 + 1, 2 ** 32 + 7, 2 ** 33 + 3, 2 ** 36]
 
 
 def hexbytes(rng, n, ctr=[0]):
     out = []
     for _ in range(n):
-        ctr[0] = (ctr[0] + 1) % 251
-        out.append("%02x" % ctr[0])
+        ctr[0] = (ctr[0] + 1) % 257        # every byte value, 0x00 and 0xff included; the period is not a power of two
+        out.append("%02x" % (ctr[0] % 256))
     return "".join(out) if n else "-"
 
 
+def pick_cap(rng):
+    c = rng.random()
+    if c < 0.12:        # the segment (capacity + 17 bytes) ends exactly on / one off a page border
+        return rng.choice([PAGE - HDR, PAGE - HDR - 1, PAGE - HDR + 1, 2 * PAGE - HDR, 2 * PAGE - HDR + 1])
+    return rng.choice([1, 2, 3, 4, 7, 16, 64, 255, 1000, 4096, 65536 if rng.random() < 0.1 else 33])
+
+
 def gen_case(rng, chk, nops, unequal):
-    cap = rng.choice([1, 2, 3, 4, 7, 16, 64, 255, 1000, 4096, 65536 if rng.random() < 0.1 else 33])
-    ops = ["new 0 %d" % cap]
+    cap = pick_cap(rng)
+    ops = []
+    if rng.random() < 0.05:
+        ops.append("new 0 0")           # a fresh name cannot be created with size 0; the handle id stays free
+    ops.append("new 0 %d" % cap)
     handles = [0]
+    owners = {0}
     free_ids = list(range(1, 6))
     used = 0
-    chk.bump("cap<=4" if cap <= 4 else "cap>4")
+    chk.bump("cap<=4" if cap <= 4 else "cap on a page border" if (cap + HDR) % PAGE in (0, 1, PAGE - 1) else "cap>4")
     for _ in range(nops):
         r = rng.random()
         h = rng.choice(handles)
         free = cap - used
-        if r < 0.40:
+        if r < 0.38:
             c = rng.random()
             if c < 0.35:
                 n = free
@@ -38,43 +55,100 @@ def gen_case(rng, chk, nops, unequal):
             else:
                 n = rng.randrange(0, cap + 2)
             n = min(n, 70000)
-            ops.append("w %d %s" % (h, hexbytes(rng, n)))
-            if 0 < n <= free:
-                used += n
-                chk.bump("write-fits")
+            if not unequal and rng.random() < 0.06:      # (not on the corrupted positions of finding F6: the real copy would run away)
+                ops.append("wz %d %d" % (h, rng.choice(HUGE)))      # can never fit: 0, nothing appended
+                chk.bump("write-huge-length")
             else:
-                chk.bump("write-rejected")
-        elif r < 0.75:
+                ops.append("w %d %s" % (h, hexbytes(rng, n)))
+                if 0 < n <= free:
+                    used += n
+                    chk.bump("write-fits")
+                else:
+                    chk.bump("write-rejected")
+        elif r < 0.73:
             c = rng.random()
-            n = used if c < 0.3 else used + 1 if c < 0.4 else 0 if c < 0.45 else 1 if c < 0.6 else rng.randrange(0, cap + 3)
+            n = used if c < 0.3 else used + 1 if c < 0.4 else 0 if c < 0.45 else 1 if c < 0.6 else rng.choice(HUGE) if c < 0.68 and not unequal else rng.randrange(0, cap + 3)
             ops.append("r %d %d" % (h, n))
             if n:
                 used -= min(n, used)
-            chk.bump("read")
-        elif r < 0.80:
+            chk.bump("read-huge-length" if n >= 2 ** 31 - 1 else "read")
+        elif r < 0.78:
             ops.append("clr %d" % h)
             used = 0
-        elif r < 0.86:
+            chk.bump("clear")
+        elif r < 0.83:
             ops.append("used %d" % h)
-        elif r < 0.92:
+        elif r < 0.88:
             ops.append("free %d" % h)
-        elif r < 0.96 and free_ids:
+        elif r < 0.93 and free_ids:
             nh = free_ids.pop()
             if unequal:
                 size = rng.choice([cap, cap, max(1, cap // 2), cap + 10, 0, 1])
                 chk.bump("new-unequal-arg")
             else:
-                size = rng.choice([cap, cap, 0, cap + rng.randrange(0, 50)])   # 0 / larger: no clamp
+                size = rng.choice([cap, cap, 0, cap + rng.randrange(0, 50), cap + PAGE])   # 0 / larger: no clamp
                 chk.bump("new-same-or-larger-arg")
             ops.append("new %d %d" % (nh, size))
             handles.append(nh)
-        elif len(handles) > 1:
+        elif r < 0.95:
+            ops.append("own %d" % h)
+            owners.add(h)
+            chk.bump("take_ownership")
+        elif r < 0.96 and len(handles) > 1 and h in owners:
+            # the holder of an owner handle is gone without freeing it (a killed process): the name stays until
+            # somebody else takes ownership and frees
+            ops.append("abandon %d" % h)
+            handles.remove(h)
+            owners.discard(h)
+            free_ids.append(h)
+            chk.bump("abandon owner")
+        elif len(handles) > 1 and h not in owners:
             handles.remove(h)
             free_ids.append(h)
             ops.append("close %d" % h)
+            chk.bump("close non-owner")
+        elif len(handles) == 1 and rng.random() < 0.6:
+            if h not in owners:
+                ops.append("own %d" % h)
+            # the last handle, an owner, goes: the name is removed; whoever comes next creates a fresh, empty
+            # buffer of the capacity it asks for (never the old bytes, never the old capacity)
+            ops.append("close %d" % h)
+            free_ids.append(h)
+            ops.append("pos")
+            cap = pick_cap(rng)
+            nh = free_ids.pop(0)
+            ops.append("new %d %d" % (nh, cap))
+            handles, owners, used = [nh], {nh}, 0
+            chk.bump("owner free, fresh buffer")
+        elif len(handles) > 1:
+            # wind down to one handle so that the owner can go
+            v = [x for x in handles if x not in owners] or handles[1:]
+            x = v[0]
+            if x in owners and len(handles) > 1:
+                pass
+            else:
+                handles.remove(x)
+                free_ids.append(x)
+                ops.append("close %d" % x)
         ops.append("pos")
     ops += ["used %d" % handles[0], "free %d" % handles[0], "r %d %d" % (handles[0], cap + 1)]
     return ops
+
+
+DIRECTED = [
+    # the creator's process is gone; the documented clean-up through a follower: take ownership, free; then a fresh buffer
+    ["new 0 8", "w 0 0102030405", "new 1 8", "abandon 0", "r 1 2", "own 1", "close 1", "pos", "new 2 3", "free 2", "used 2", "r 2 9", "w 2 0a0b0c", "pos"],
+    # … and without the clean-up the buffer lives on with its bytes, whatever size the next opener asks for
+    ["new 0 8", "w 0 0102030405", "new 1 8", "abandon 0", "close 1", "pos", "new 2 30", "free 2", "used 2", "r 2 9", "pos", "own 2", "close 2", "new 0 30", "free 0"],
+    # owner goes, the next creator asks for another capacity: fresh and empty (take_ownership on a follower too)
+    ["new 0 8", "w 0 0102030405", "new 1 8", "close 1", "own 0", "close 0", "pos", "new 2 3", "free 2", "used 2", "r 2 9", "w 2 0a0b0c", "w 2 0d", "r 2 2", "pos"],
+    ["new 0 8", "w 0 0102030405", "new 1 0", "r 1 2", "close 1", "close 0", "pos", "new 1 20", "free 1", "r 1 30", "w 1 0708", "new 0 0", "r 0 1", "pos"],
+    # lengths of 2^31 … 2^36 on a small and on a full buffer
+    ["new 0 5"] + ["wz 0 %d" % n for n in HUGE] + ["pos", "w 0 0102030405", "pos"] + ["wz 0 %d" % n for n in HUGE[:3]] + ["r 0 %d" % HUGE[5], "pos", "w 0 ff00ff", "r 0 %d" % HUGE[1], "pos"],
+    # a segment that ends exactly on a page border: fill, wrap, clear
+    ["new 0 %d" % (PAGE - HDR), "free 0", "w 0 " + "ab" * (PAGE - HDR), "pos", "r 0 100", "w 0 " + "cd" * 100, "pos", "clr 0", "pos", "free 0", "new 1 %d" % PAGE, "clr 1", "free 1", "pos"],
+    ["new 0 %d" % (2 * PAGE - HDR), "clr 0", "w 0 " + "ef" * (2 * PAGE - HDR), "r 0 %d" % (2 * PAGE), "clr 0", "pos"],
+]
 
 
 def exhaustive(depth, caps=(1, 2, 3, 4)):
@@ -98,15 +172,45 @@ def exhaustive(depth, caps=(1, 2, 3, 4)):
 
 
 def signature_of(ops, r):
-    sizes = [int(o.split()[2]) for o in ops if o.startswith("new ")]
-    if sizes and any(0 < s < sizes[0] for s in sizes[1:]):
-        return "handles-with-unequal-size-arguments"
+    """F6: some handle was opened with a non-zero size argument smaller than the capacity of the buffer it joined
+    (the protocol's life cycle is replayed: the name lives until an owner, as the last open handle, is closed)"""
+    cap, hs, owners = None, set(), set()
+    for o in ops:
+        t = o.split()
+        if t[0] == "new" and len(t) == 3 and t[1].isdigit() and t[2].isdigit():
+            h, size = int(t[1]), int(t[2])
+            if h in hs:
+                continue
+            if cap is None:
+                if size == 0:
+                    continue              # fails on a fresh name
+                cap, hs, owners = size, {h}, {h}
+            else:
+                if 0 < size < cap:
+                    return "handles-with-unequal-size-arguments"
+                hs.add(h)
+        elif t[0] == "own" and len(t) == 2 and t[1].isdigit() and int(t[1]) in hs:
+            owners.add(int(t[1]))
+        elif t[0] == "abandon" and len(t) == 2 and t[1].isdigit():
+            hs.discard(int(t[1]))
+            owners.discard(int(t[1]))
+        elif t[0] == "close" and len(t) == 2 and t[1].isdigit() and int(t[1]) in hs:
+            h = int(t[1])
+            if h in owners:
+                if len(hs) == 1:
+                    cap, hs, owners = None, set(), set()
+            else:
+                hs.discard(h)
+        elif t[0] == "reset":
+            cap, hs, owners = None, set(), set()
     return None
 
 
 def run(chk):
     cfg = pv.repo_config()
     proof_ok, driver_ok, detail = pv.proof_stage(chk, ["PV.Props.C08"])
+    if any(d.startswith("extractor: ") and "pshmbuffer" in d for d in detail):
+        proof_ok = False
     exe = pv.build_harness("sb", cfg, ["sb.c"], san="asan")
     fam = diffrun.Family("sb", exe)
     thorough = chk.tier == "thorough"
@@ -118,15 +222,23 @@ def run(chk):
     nr = 1500 if thorough else 250
     rnd = [gen_case(rng, chk, rng.choice([10, 40, 120]), unequal=False) for _ in range(nr)]
     uneq = [gen_case(rng, chk, rng.choice([10, 40]), unequal=True) for _ in range(nr // 5)]
-    found, corr, thm = diffrun.campaign(chk, fam, cases + ex + rnd, proof_ok, detail, signature_of, "C08", batch=60)
+    found, corr, thm = diffrun.campaign(chk, fam, cases + DIRECTED + ex + rnd, proof_ok, detail, signature_of, "C08", batch=60)
     f2, c2, t2 = diffrun.campaign(chk, fam, uneq, proof_ok, detail, signature_of, "C08 unequal size arguments", batch=1)
     # supporting run / failing-input search for the atomicity clause: producer and consumer processes on a nearly full buffer
     st = [["stress %d %d:%d" % (cap, chunk, total)] for cap, chunk, total in
           ([(4096, 2048, 4000000), (64, 48, 300000)] + ([(2097152, 1048576, 400000000), (17, 9, 500000), (1024, 1000, 20000000)] if thorough else []))]
+    # several producer processes (own handles, every other one opened with size 0) and several consumer threads sharing
+    # one handle, whole frames only, while a third party polls used/free: CAP CHUNK:TOTAL:PRODUCERS:CONSUMERS
+    st += [["stress %d %d:%d:%d:%d" % x] for x in
+           ([(64, 16, 400000, 2, 2), (100, 33, 600000, 3, 1), (PAGE - HDR, 1024, 8000000, 2, 3), (17, 6, 120000, 4, 2)]
+            + ([(64, 16, 4000000, 2, 2), (40, 13, 2000000, 5, 3), (2 * PAGE - HDR, 4096, 80000000, 3, 2), (7, 6, 300000, 2, 2)] if thorough else []))]
+    chk.bump("multi-party stress runs", len(st) - (5 if thorough else 2))
     f3, c3, t3 = diffrun.campaign(chk, fam, st, proof_ok, detail, signature_of, "C08 concurrent producer/consumer", batch=1, min_ops=1)
     diffrun.conclude(chk, found or f2 or f3, corr or c2 or c3, thm or t2 or t3, proof_ok and driver_ok, detail, "C08 shm buffer")
-    chk.cov["rule"] = ("op files on one buffer name through up to 6 handles: capacities 1..65536, lengths biased to free, free±1, 0, capacity+1; header positions compared after every op; "
-                       "exhaustive: all sequences of %d ops over write/read lengths 0..S+1, clear, used for small capacities; distinct by op-file hash, non-trivial = more than one op" % depth)
+    chk.cov["rule"] = ("op files on one buffer name through up to 6 handles: capacities 1..65536 and page-border capacities (segment = capacity+17 = k pages, ±1), lengths biased to free, free±1, 0, capacity+1 "
+                       "and 2^31-1 .. 2^36 (reads and writes), all byte values; take_ownership, close of followers, close of the last owner followed by a fresh buffer of another capacity; header positions compared after every op; "
+                       "exhaustive: all sequences of %d ops over write/read lengths 0..S+1, clear, used for small capacities; "
+                       "concurrent: 1 producer/1 consumer streams and P producer processes x C consumer threads (shared handle) with whole frames + a used/free poller; distinct by op-file hash, non-trivial = more than one op" % depth)
     chk.assumptions += ["capacity < 2^31 - 1 (the read result is a pint)", "POSIX shm objects are zero-filled at creation and MAP_SHARED is coherent (trusted)",
                         "concurrent atomicity relies on C07's lock (p_shm_lock brackets every operation: checked by the translator)"]
     return chk.finish()
